@@ -1,5 +1,6 @@
 import JominiModel.Spec.BinSkip
 import JominiModel.Proofs.BinLexer
+import JominiModel.Proofs.BinReader
 /-
 C09 (binary lexer): `Lexer::skip_container` (which walks lexeme by lexeme and never looks
 inside payloads) lands exactly where counting opens and closes over `read_token`'s tokens
@@ -338,22 +339,674 @@ theorem C09_bin_lexer_skip (l : Lexer) (r : Bytes)
     if_false, if_true, or_self]
   exact h2
 
-/-
-NOT YET PROVED (covered by the correspondence op `bskip` and the L3 oracle
-`skip-lands-elsewhere` / `skip-next-token` only):
-
-theorem C09_bin_reader_skip (buffer data : Bytes) (sched : List Step) (rd : Reader) (r : Bytes)
-    (h : RInv rd data) (hfit : Fits rd.buf.cap (rd.remaining data)) (hnf : Src.NoFaults rd.src.sched)
-    (hb : balancedSkip ((rd.remaining data).length / 2 + 1) (rd.remaining data) 1 = some (.ok r)) :
-    (rd.skipContainer).1 = .ok () ∧ (rd.skipContainer).2.remaining data = r ∧ RInv (rd.skipContainer).2 data
-
-i.e. the streamed `TokenReader::skip_container` lands exactly where the lexer's does, for every
-fault-free schedule and every buffer that fits.  The ingredients are in place (`fillBuf_cases`,
-`advance_refines`, the `Stable`/`Local`/`Consumes` families, `skipLoop_balanced`); what is
-missing is the lemma that the inner `while let Ok(..) = read_id(window)` scan (`skipScan`)
-consumes exactly the complete lexemes of the window.
--/
-
 example : balancedSkip 9 [0x0f, 0, 2, 0, 0x04, 0, 0x04, 0, 0xff, 0xff] 1 = some (.ok [0xff, 0xff]) := by rfl
 
 end Jomini.BinLexer
+
+namespace Jomini.BinReader
+open Jomini Jomini.BinLexer
+
+/-- the payload part of `lexeme`: what follows the payload of lexeme `id` in `data` -/
+def payloadRest (id : Nat) (data : Bytes) : Option Bytes :=
+  if id = CLOSE then some data
+  else if id = OPEN then some data
+  else if id = BOOL then (if 1 ≤ data.length then some (data.drop 1) else none)
+  else if id = F32 ∨ id = U32 ∨ id = I32 then (if 4 ≤ data.length then some (data.drop 4) else none)
+  else if id = F64 ∨ id = I64 ∨ id = U64 then (if 8 ≤ data.length then some (data.drop 8) else none)
+  else if id = QUOTED ∨ id = UNQUOTED then
+    match readString data with
+    | .ok (_, d) => some d
+    | .error _ => none
+  else some data
+
+theorem lexeme_eq (w : Bytes) :
+    lexeme w = match readId w with
+      | .error _ => none
+      | .ok (id, data) => (payloadRest id data).map (fun r => (id, r)) := by
+  unfold lexeme payloadRest
+  cases readId w with
+  | error e => rfl
+  | ok v =>
+    obtain ⟨id, data⟩ := v
+    simp only
+    repeat' split
+    all_goals simp_all
+
+theorem lexeme_some {w r : Bytes} {id : Nat} (h : lexeme w = some (id, r)) :
+    ∃ data, readId w = .ok (id, data) ∧ payloadRest id data = some r := by
+  rw [lexeme_eq] at h
+  cases hid : readId w with
+  | error e => simp [hid] at h
+  | ok v =>
+    obtain ⟨id', data⟩ := v
+    rw [hid] at h
+    simp only [Option.map_eq_some_iff, Prod.mk.injEq] at h
+    obtain ⟨a, ha, rfl, rfl⟩ := h
+    exact ⟨data, rfl, ha⟩
+
+theorem lexeme_of {w r data : Bytes} {id : Nat} (h1 : readId w = .ok (id, data))
+    (h2 : payloadRest id data = some r) : lexeme w = some (id, r) := by
+  rw [lexeme_eq, h1]
+  simp [h2]
+
+theorem payloadRest_stable {id : Nat} {data r s : Bytes} (h : payloadRest id data = some r) :
+    payloadRest id (data ++ s) = some (r ++ s) := by
+  unfold payloadRest at *
+  have hlen : (data ++ s).length = data.length + s.length := by simp
+  by_cases h1 : id = CLOSE
+  · rw [if_pos h1] at h ⊢
+    simp only [Option.some.injEq] at h; rw [h]
+  rw [if_neg h1] at h ⊢
+  by_cases h2 : id = OPEN
+  · rw [if_pos h2] at h ⊢
+    simp only [Option.some.injEq] at h; rw [h]
+  rw [if_neg h2] at h ⊢
+  by_cases h3 : id = BOOL
+  · rw [if_pos h3] at h ⊢
+    by_cases hl : 1 ≤ data.length
+    · rw [if_pos hl] at h
+      rw [if_pos (by omega)]
+      simp only [Option.some.injEq] at h
+      rw [List.drop_append_of_le_length hl, h]
+    · rw [if_neg hl] at h; simp at h
+  rw [if_neg h3] at h ⊢
+  by_cases h4 : id = F32 ∨ id = U32 ∨ id = I32
+  · rw [if_pos h4] at h ⊢
+    by_cases hl : 4 ≤ data.length
+    · rw [if_pos hl] at h
+      rw [if_pos (by omega)]
+      simp only [Option.some.injEq] at h
+      rw [List.drop_append_of_le_length hl, h]
+    · rw [if_neg hl] at h; simp at h
+  rw [if_neg h4] at h ⊢
+  by_cases h5 : id = F64 ∨ id = I64 ∨ id = U64
+  · rw [if_pos h5] at h ⊢
+    by_cases hl : 8 ≤ data.length
+    · rw [if_pos hl] at h
+      rw [if_pos (by omega)]
+      simp only [Option.some.injEq] at h
+      rw [List.drop_append_of_le_length hl, h]
+    · rw [if_neg hl] at h; simp at h
+  rw [if_neg h5] at h ⊢
+  by_cases h6 : id = QUOTED ∨ id = UNQUOTED
+  · rw [if_pos h6] at h ⊢
+    cases hs : readString data with
+    | error e => rw [hs] at h; simp at h
+    | ok v =>
+      obtain ⟨x, d⟩ := v
+      rw [hs] at h
+      rw [readString_stable.ok data s x d hs]
+      simp only [Option.some.injEq] at h ⊢
+      rw [h]
+  rw [if_neg h6] at h ⊢
+  simp only [Option.some.injEq] at h; rw [h]
+
+theorem payloadRest_suffix {id : Nat} {data r : Bytes} (h : payloadRest id data = some r) :
+    ∃ pre, data = pre ++ r := by
+  unfold payloadRest at h
+  have key : ∀ n, data.drop n = r → ∃ pre, data = pre ++ r := fun n hr =>
+    ⟨data.take n, by rw [← hr, List.take_append_drop]⟩
+  by_cases h1 : id = CLOSE
+  · rw [if_pos h1] at h
+    exact key 0 (by simpa using h)
+  rw [if_neg h1] at h
+  by_cases h2 : id = OPEN
+  · rw [if_pos h2] at h
+    exact key 0 (by simpa using h)
+  rw [if_neg h2] at h
+  by_cases h3 : id = BOOL
+  · rw [if_pos h3] at h
+    by_cases hl : 1 ≤ data.length
+    · rw [if_pos hl] at h
+      exact key 1 (by simpa using h)
+    · rw [if_neg hl] at h; simp at h
+  rw [if_neg h3] at h
+  by_cases h4 : id = F32 ∨ id = U32 ∨ id = I32
+  · rw [if_pos h4] at h
+    by_cases hl : 4 ≤ data.length
+    · rw [if_pos hl] at h
+      exact key 4 (by simpa using h)
+    · rw [if_neg hl] at h; simp at h
+  rw [if_neg h4] at h
+  by_cases h5 : id = F64 ∨ id = I64 ∨ id = U64
+  · rw [if_pos h5] at h
+    by_cases hl : 8 ≤ data.length
+    · rw [if_pos hl] at h
+      exact key 8 (by simpa using h)
+    · rw [if_neg hl] at h; simp at h
+  rw [if_neg h5] at h
+  by_cases h6 : id = QUOTED ∨ id = UNQUOTED
+  · rw [if_pos h6] at h
+    cases hs : readString data with
+    | error e => rw [hs] at h; simp at h
+    | ok v =>
+      obtain ⟨x, d⟩ := v
+      rw [hs] at h
+      simp only [Option.some.injEq] at h
+      obtain ⟨pre, hp, _⟩ := readString_consumes data x d hs
+      exact ⟨pre, by rw [hp, h]⟩
+  rw [if_neg h6] at h
+  exact key 0 (by simpa using h)
+
+theorem lexeme_stable {w s r : Bytes} {id : Nat} (h : lexeme w = some (id, r)) :
+    lexeme (w ++ s) = some (id, r ++ s) := by
+  obtain ⟨data, h1, h2⟩ := lexeme_some h
+  exact lexeme_of (readId_stable.ok w s id data h1) (payloadRest_stable h2)
+
+theorem lexeme_consumes {w r : Bytes} {id : Nat} (h : lexeme w = some (id, r)) :
+    ∃ pre, w = pre ++ r ∧ 2 ≤ pre.length := by
+  obtain ⟨data, h1, h2⟩ := lexeme_some h
+  obtain ⟨pre, hpre, hlen⟩ := readId_consumes w id data h1
+  obtain ⟨pre2, hp2⟩ := payloadRest_suffix h2
+  exact ⟨pre ++ pre2, by rw [hpre, hp2, List.append_assoc], by simp; omega⟩
+
+theorem scan_step (sf : Nat) (rd : Reader) (depth : Nat) :
+    Reader.skipScan (sf + 1) rd depth =
+      match lexeme rd.buf.window with
+      | none => .refill rd depth
+      | some (id, rest) =>
+        match rd.advanceTo rest with
+        | none => .ub rd
+        | some rd' =>
+          if id = CLOSE ∧ depth - 1 = 0 then .returned rd' else Reader.skipScan sf rd' (depthAfter id depth) := by
+  rw [Reader.skipScan]
+  unfold lexeme
+  cases hid : readId rd.buf.window with
+  | error e => rfl
+  | ok v =>
+    obtain ⟨id, data⟩ := v
+    simp only
+    by_cases h1 : id = CLOSE
+    · subst h1
+      simp only [if_true, depthAfter, true_and]
+      cases h : rd.advanceTo data <;> simp only [h]
+    · by_cases h2 : id = OPEN
+      · subst h2
+        simp only [h1, if_false, if_true, depthAfter, false_and]
+        cases h : rd.advanceTo data <;> simp only [h]
+      · by_cases h3 : id = BOOL
+        · subst h3
+          simp only [h1, h2, if_false, if_true, depthAfter, false_and]
+          by_cases hl : 1 ≤ data.length
+          · simp only [hl, if_true]
+            cases h : rd.advanceTo (data.drop 1) <;> simp only [h, h1, h2, false_and, if_false]
+          · simp only [hl, if_false]
+        · by_cases h4 : id = F32 ∨ id = U32 ∨ id = I32
+          · simp only [h1, h2, h3, h4, if_false, if_true, depthAfter, false_and]
+            by_cases hl : 4 ≤ data.length
+            · simp only [hl, if_true]
+              cases h : rd.advanceTo (data.drop 4) <;> simp only [h, h1, h2, false_and, if_false]
+            · simp only [hl, if_false]
+          · by_cases h5 : id = F64 ∨ id = I64 ∨ id = U64
+            · simp only [h1, h2, h3, h4, h5, if_false, if_true, depthAfter, false_and]
+              by_cases hl : 8 ≤ data.length
+              · simp only [hl, if_true]
+                cases h : rd.advanceTo (data.drop 8) <;> simp only [h, h1, h2, false_and, if_false]
+              · simp only [hl, if_false]
+            · by_cases h6 : id = QUOTED ∨ id = UNQUOTED
+              · simp only [h1, h2, h3, h4, h5, h6, if_false, if_true, depthAfter, false_and]
+                cases readString data with
+                | error e => rfl
+                | ok v =>
+                  obtain ⟨x, d⟩ := v
+                  simp only
+                  cases h : rd.advanceTo d <;> simp only [h, h1, h2, false_and, if_false]
+              · simp only [h1, h2, h3, h4, h5, h6, if_false, depthAfter, false_and]
+                cases h : rd.advanceTo data <;> simp only [h, h1, h2, false_and, if_false]
+
+/-! ### the lexer's `skip_container` against the lexeme walk -/
+
+theorem getSplit_drop {n : Nat} {d : Bytes} (h : n ≤ d.length) : getSplit n d = some (d.take n, d.drop n) := by
+  simp [getSplit, h]
+
+theorem lexer_step_some (f : Nat) (d d1 d' : Bytes) (L depth id : Nat) (hid : readId d = .ok (id, d1))
+    (hp : payloadRest id d1 = some d') :
+    Lexer.skipLoop (f + 1) ⟨d, L⟩ depth =
+      if id = CLOSE ∧ depth - 1 = 0 then some (.ok (), ⟨d', L⟩)
+      else Lexer.skipLoop f ⟨d', L⟩ (depthAfter id depth) := by
+  unfold payloadRest at hp
+  unfold depthAfter
+  by_cases h1 : id = CLOSE
+  · rw [if_pos h1] at hp
+    simp only [Option.some.injEq] at hp
+    subst hp; subst h1
+    rw [skip_step_close f d d1 L depth hid]
+    simp only [true_and, if_true]
+  rw [if_neg h1] at hp
+  by_cases h2 : id = OPEN
+  · rw [if_pos h2] at hp
+    simp only [Option.some.injEq] at hp
+    subst hp
+    rw [if_neg (by simp [h1]), if_neg h1, if_pos h2]
+    subst h2
+    exact skip_step_open f d d1 L depth hid
+  rw [if_neg h2] at hp
+  rw [if_neg (by simp [h1]), if_neg h1, if_neg h2]
+  by_cases h3 : id = BOOL
+  · rw [if_pos h3] at hp
+    by_cases hl : 1 ≤ d1.length
+    · rw [if_pos hl] at hp
+      simp only [Option.some.injEq] at hp
+      subst hp; subst h3
+      cases d1 with
+      | nil => simp at hl
+      | cons a t => exact skip_step_bool f d (a :: t) t L depth (a != 0) hid (by simp [readBool])
+    · rw [if_neg hl] at hp; simp at hp
+  rw [if_neg h3] at hp
+  by_cases h4 : id = F32 ∨ id = U32 ∨ id = I32
+  · rw [if_pos h4] at hp
+    by_cases hl : 4 ≤ d1.length
+    · rw [if_pos hl] at hp
+      simp only [Option.some.injEq] at hp
+      subst hp
+      rcases h4 with rfl | rfl | rfl
+      · exact skip_step_f32 f d d1 (d1.drop 4) L depth (d1.take 4) hid (by simp [readF32, getSplit_drop hl])
+      · exact skip_step_u32 f d d1 (d1.drop 4) L depth (leNat (d1.take 4)) hid (by simp [readU32, getSplit_drop hl])
+      · exact skip_step_i32 f d d1 (d1.drop 4) L depth (toSigned 32 (leNat (d1.take 4))) hid (by simp [readI32, getSplit_drop hl])
+    · rw [if_neg hl] at hp; simp at hp
+  rw [if_neg h4] at hp
+  by_cases h5 : id = F64 ∨ id = I64 ∨ id = U64
+  · rw [if_pos h5] at hp
+    by_cases hl : 8 ≤ d1.length
+    · rw [if_pos hl] at hp
+      simp only [Option.some.injEq] at hp
+      subst hp
+      rcases h5 with rfl | rfl | rfl
+      · exact skip_step_f64 f d d1 (d1.drop 8) L depth (d1.take 8) hid (by simp [readF64, getSplit_drop hl])
+      · exact skip_step_i64 f d d1 (d1.drop 8) L depth (toSigned 64 (leNat (d1.take 8))) hid (by simp [readI64, getSplit_drop hl])
+      · exact skip_step_u64 f d d1 (d1.drop 8) L depth (leNat (d1.take 8)) hid (by simp [readU64, getSplit_drop hl])
+    · rw [if_neg hl] at hp; simp at hp
+  rw [if_neg h5] at hp
+  by_cases h6 : id = QUOTED ∨ id = UNQUOTED
+  · rw [if_pos h6] at hp
+    cases hs : readString d1 with
+    | error e => rw [hs] at hp; simp at hp
+    | ok v =>
+      obtain ⟨x, dd⟩ := v
+      rw [hs] at hp
+      simp only [Option.some.injEq] at hp
+      subst hp
+      exact skip_step_str f d d1 _ L depth id x hid h6 hs
+  rw [if_neg h6] at hp
+  simp only [Option.some.injEq] at hp
+  subst hp
+  simp only [not_or] at h4 h5 h6
+  exact skip_step_other f d d1 L depth id hid
+    ⟨h6.1, h6.2, h4.2.1, h4.2.2, h5.2.2, h5.2.1, h3, h4.1, h5.1, h1, h2⟩
+
+theorem lexer_step_none (f : Nat) (d : Bytes) (L depth : Nat) (h : lexeme d = none) (l' : Lexer) :
+    Lexer.skipLoop (f + 1) ⟨d, L⟩ depth ≠ some (.ok (), l') := by
+  intro hc
+  rw [lexeme_eq] at h
+  cases hid : readId d with
+  | error e => simp [Lexer.skipLoop, Lexer.readId, Lexer.lift, hid] at hc
+  | ok v =>
+    obtain ⟨id, d1⟩ := v
+    rw [hid] at h
+    simp only [Option.map_eq_none_iff] at h
+    unfold payloadRest at h
+    by_cases h1 : id = CLOSE
+    · rw [if_pos h1] at h; simp at h
+    rw [if_neg h1] at h
+    by_cases h2 : id = OPEN
+    · rw [if_pos h2] at h; simp at h
+    rw [if_neg h2] at h
+    by_cases h3 : id = BOOL
+    · rw [if_pos h3] at h
+      by_cases hl : 1 ≤ d1.length
+      · rw [if_pos hl] at h; simp at h
+      · have : d1 = [] := List.eq_nil_of_length_eq_zero (by omega)
+        subst this; subst h3
+        simp [Lexer.skipLoop, Lexer.readId, Lexer.readBool, Lexer.lift, hid, readBool, BOOL, QUOTED, UNQUOTED, U32, I32, U64, I64] at hc
+    rw [if_neg h3] at h
+    by_cases h4 : id = F32 ∨ id = U32 ∨ id = I32
+    · rw [if_pos h4] at h
+      by_cases hl : 4 ≤ d1.length
+      · rw [if_pos hl] at h; simp at h
+      · have hg : getSplit 4 d1 = none := getSplit_none.mpr (by omega)
+        rcases h4 with rfl | rfl | rfl
+        · simp [Lexer.skipLoop, Lexer.readId, Lexer.readF32, Lexer.lift, hid, readF32, hg, BOOL, QUOTED, UNQUOTED, U32, I32, U64, I64, F32] at hc
+        · simp [Lexer.skipLoop, Lexer.readId, Lexer.readU32, Lexer.lift, hid, readU32, hg, BOOL, QUOTED, UNQUOTED, U32, I32, U64, I64, F32] at hc
+        · simp [Lexer.skipLoop, Lexer.readId, Lexer.readI32, Lexer.lift, hid, readI32, hg, BOOL, QUOTED, UNQUOTED, U32, I32, U64, I64, F32] at hc
+    rw [if_neg h4] at h
+    by_cases h5 : id = F64 ∨ id = I64 ∨ id = U64
+    · rw [if_pos h5] at h
+      by_cases hl : 8 ≤ d1.length
+      · rw [if_pos hl] at h; simp at h
+      · have hg : getSplit 8 d1 = none := getSplit_none.mpr (by omega)
+        rcases h5 with rfl | rfl | rfl
+        · simp [Lexer.skipLoop, Lexer.readId, Lexer.readF64, Lexer.lift, hid, readF64, hg, BOOL, QUOTED, UNQUOTED, U32, I32, U64, I64, F32, F64] at hc
+        · simp [Lexer.skipLoop, Lexer.readId, Lexer.readI64, Lexer.lift, hid, readI64, hg, BOOL, QUOTED, UNQUOTED, U32, I32, U64, I64, F32, F64] at hc
+        · simp [Lexer.skipLoop, Lexer.readId, Lexer.readU64, Lexer.lift, hid, readU64, hg, BOOL, QUOTED, UNQUOTED, U32, I32, U64, I64, F32, F64] at hc
+    rw [if_neg h5] at h
+    by_cases h6 : id = QUOTED ∨ id = UNQUOTED
+    · rw [if_pos h6] at h
+      cases hs : readString d1 with
+      | ok v => obtain ⟨x, dd⟩ := v; rw [hs] at h; simp at h
+      | error e =>
+        simp [Lexer.skipLoop, Lexer.readId, Lexer.readString, Lexer.lift, hid, hs, h6] at hc
+    rw [if_neg h6] at h
+    simp at h
+
+/-- a successful `Lexer::skip_container` walked the lexemes to the matching close -/
+theorem lexer_skips (f : Nat) (d : Bytes) (L depth : Nat) (l' : Lexer)
+    (h : Lexer.skipLoop f ⟨d, L⟩ depth = some (.ok (), l')) :
+    Skips d depth l'.data ∧ l'.originalLength = L := by
+  induction f generalizing d depth with
+  | zero => simp [Lexer.skipLoop] at h
+  | succ f ih =>
+    cases hlx : lexeme d with
+    | none =>
+      exact absurd h (lexer_step_none f d L depth hlx l')
+    | some v =>
+      obtain ⟨id, d'⟩ := v
+      obtain ⟨d1, hid, hp⟩ := lexeme_some hlx
+      rw [lexer_step_some f d d1 d' L depth id hid hp] at h
+      by_cases hc : id = CLOSE ∧ depth - 1 = 0
+      · rw [if_pos hc] at h
+        simp only [Option.some.injEq, Prod.mk.injEq, true_and] at h
+        subst h
+        obtain ⟨rfl, hz⟩ := hc
+        exact ⟨Skips.done hlx hz, rfl⟩
+      · rw [if_neg hc] at h
+        obtain ⟨i1, i2⟩ := ih d' _ h
+        exact ⟨Skips.step hlx hc i1, i2⟩
+
+/-! ### the streamed `skip_container` -/
+
+theorem skips_inv {d r d' : Bytes} {depth id : Nat} (hs : Skips d depth r) (hlx : lexeme d = some (id, d')) :
+    (id = CLOSE ∧ depth - 1 = 0 ∧ r = d') ∨
+    (¬(id = CLOSE ∧ depth - 1 = 0) ∧ Skips d' (depthAfter id depth) r) := by
+  cases hs with
+  | done h1 h2 =>
+    rw [hlx] at h1
+    simp only [Option.some.injEq, Prod.mk.injEq] at h1
+    exact Or.inl ⟨h1.1, h2, h1.2.symm⟩
+  | step h1 h2 h3 =>
+    rw [hlx] at h1
+    simp only [Option.some.injEq, Prod.mk.injEq] at h1
+    obtain ⟨rfl, rfl⟩ := h1
+    exact Or.inr ⟨h2, h3⟩
+
+theorem skips_lexeme {d r : Bytes} {depth : Nat} (hs : Skips d depth r) : lexeme d ≠ none := by
+  cases hs with
+  | done h1 _ => rw [h1]; simp
+  | step h1 _ _ => rw [h1]; simp
+
+theorem skipFits_tail {cap depth id : Nat} {d r : Bytes} (h : SkipFits cap d depth)
+    (hlx : lexeme d = some (id, r)) (hn : ¬(id = CLOSE ∧ depth - 1 = 0)) :
+    SkipFits cap r (depthAfter id depth) := by
+  cases h with
+  | mk _ _ _ tail => exact tail id r hlx hn
+
+theorem skipFits_head {cap depth : Nat} {d : Bytes} (h : SkipFits cap d depth) :
+    ∀ k, k ≤ d.length → lexeme (d.take k) = none → k < cap := by
+  cases h with
+  | mk _ _ head _ => exact head
+
+/-- `advance_to` a suffix of the window -/
+theorem rinv_advance {rd : Reader} {data pre rest : Bytes} (h : RInv rd data)
+    (hw : rd.buf.window = pre ++ rest) :
+    ∃ rd', rd.advanceTo rest = some rd' ∧ RInv rd' data ∧ rd'.buf.window = rest ∧
+      rd'.remaining data = rest ++ rd.src.rest ∧ rd'.src = rd.src ∧ rd'.buf.cap = rd.buf.cap ∧
+      rd'.buf.windowLen = rd.buf.windowLen - pre.length := by
+  have hwl : rd.buf.window.length = rd.buf.windowLen := Buf.window_length h.buf.se h.buf.em
+  have hlen : rd.buf.windowLen - rest.length = pre.length := by rw [← hwl, hw]; simp
+  have hle : pre.length ≤ rd.buf.windowLen := by rw [← hwl, hw]; simp
+  obtain ⟨b', hadv, hinv', hwin', hpos', hcap', hwl'⟩ :=
+    Buf.advance_refines rd.buf rd.src data h.buf pre.length hle
+  refine ⟨{ rd with buf := b' }, by simp only [Reader.advanceTo, hlen, hadv], ?_, ?_, ?_, rfl, hcap', hwl'⟩
+  · refine ⟨hinv', h.wf, fun hc => h.slice (by rw [← hcap']; exact hc), fun hc => ?_, ?_⟩
+    · have := h.deliv (by rw [← hcap']; exact hc)
+      simp only [Reader.position] at *
+      rw [this, hpos', hwl']; omega
+    · have hv := congrArg List.length h.buf.view
+      have hp := h.ple
+      simp only [List.length_append, List.length_drop, Reader.position] at hv hp ⊢
+      rw [hpos']; omega
+  · simp only; rw [hwin', hw]; simp
+  · have hv := hinv'.view
+    simp only [Reader.remaining, Reader.position]
+    rw [← hv, hwin', hw]; simp
+
+/-- what the inner `while let Ok(..) = read_id(window)` loop achieves -/
+def ScanPost (data r : Bytes) (rd : Reader) : Reader.ScanRes → Prop
+  | .returned rd' => RInv rd' data ∧ rd'.remaining data = r ∧ rd'.src = rd.src ∧ rd'.buf.cap = rd.buf.cap
+  | .refill rd' depth' => RInv rd' data ∧ Skips (rd'.remaining data) depth' r ∧
+      (rd'.buf.cap = 0 ∨ SkipFits rd'.buf.cap (rd'.remaining data) depth') ∧
+      lexeme rd'.buf.window = none ∧ rd'.src = rd.src ∧ rd'.buf.cap = rd.buf.cap
+  | .ub _ => False
+
+theorem scan_spec (data r : Bytes) (sf : Nat) (rd : Reader) (depth : Nat) (h : RInv rd data)
+    (hs : Skips (rd.remaining data) depth r)
+    (hfit : rd.buf.cap = 0 ∨ SkipFits rd.buf.cap (rd.remaining data) depth)
+    (hsf : rd.buf.windowLen / 2 < sf) :
+    ScanPost data r rd (Reader.skipScan sf rd depth) := by
+  induction sf generalizing rd depth with
+  | zero => omega
+  | succ sf ih =>
+    rw [scan_step]
+    have hrem := remaining_eq h
+    cases hlx : lexeme rd.buf.window with
+    | none => exact ⟨h, hs, hfit, hlx, rfl, rfl⟩
+    | some v =>
+      obtain ⟨id, rest⟩ := v
+      obtain ⟨pre, hpre, hplen⟩ := lexeme_consumes hlx
+      obtain ⟨rd', hadv, hinv', hwin', hrem', hsrc', hcap', hwl'⟩ := rinv_advance h hpre
+      have hfull : lexeme (rd.remaining data) = some (id, rd'.remaining data) := by
+        rw [hrem, hrem']; exact lexeme_stable hlx
+      simp only [hadv]
+      rcases skips_inv hs hfull with ⟨c1, c2, c3⟩ | ⟨c1, c2⟩
+      · rw [if_pos ⟨c1, c2⟩]
+        exact ⟨hinv', c3.symm, hsrc', hcap'⟩
+      · rw [if_neg c1]
+        have hfit' : rd'.buf.cap = 0 ∨ SkipFits rd'.buf.cap (rd'.remaining data) (depthAfter id depth) := by
+          rw [hcap']
+          rcases hfit with h0 | hf
+          · exact Or.inl h0
+          · exact Or.inr (skipFits_tail hf hfull c1)
+        have hwlen : rd.buf.window.length = rd.buf.windowLen := Buf.window_length h.buf.se h.buf.em
+        have hpl := congrArg List.length hpre
+        simp only [List.length_append] at hpl
+        have := ih rd' (depthAfter id depth) hinv' c2 hfit' (by omega)
+        revert this
+        generalize Reader.skipScan sf rd' (depthAfter id depth) = res
+        intro this
+        cases res with
+        | returned rd2 =>
+          simp only [ScanPost] at this ⊢
+          exact ⟨this.1, this.2.1, by rw [this.2.2.1, hsrc'], by rw [this.2.2.2, hcap']⟩
+        | refill rd2 d2 =>
+          simp only [ScanPost] at this ⊢
+          obtain ⟨a1, a2, a3, a4, a5, a6⟩ := this
+          exact ⟨a1, a2, a3, a4, by rw [a5, hsrc'], by rw [a6, hcap']⟩
+        | ub rd2 => exact this
+
+/-- **C09 (binary reader).**  Under every fault-free schedule and every buffer in which the
+lexemes met on the way fit, the streamed `TokenReader::skip_container` succeeds and stops
+exactly where the lexeme walk `Skips` ends — which is where `Lexer::skip_container` ends
+(`lexer_skips`). -/
+theorem reader_skip (data r : Bytes) (fuel : Nat) (rd : Reader) (depth : Nat) (h : RInv rd data)
+    (hs : Skips (rd.remaining data) depth r)
+    (hfit : rd.buf.cap = 0 ∨ SkipFits rd.buf.cap (rd.remaining data) depth)
+    (hnf : Src.NoFaults rd.src.sched) (hfuel : rd.src.rest.length < fuel) :
+    (Reader.skipLoop fuel rd depth).1 = .ok () ∧ (Reader.skipLoop fuel rd depth).2.remaining data = r ∧
+    RInv (Reader.skipLoop fuel rd depth).2 data := by
+  induction fuel generalizing rd depth with
+  | zero => omega
+  | succ fuel ih =>
+    unfold Reader.skipLoop
+    have hsc := scan_spec data r (rd.buf.windowLen / 2 + 1) rd depth h hs hfit (by omega)
+    revert hsc
+    generalize Reader.skipScan (rd.buf.windowLen / 2 + 1) rd depth = res
+    intro hsc
+    cases res with
+    | returned rd' =>
+      simp only [ScanPost] at hsc
+      exact ⟨rfl, hsc.2.1, hsc.1⟩
+    | ub rd' => exact absurd hsc (by simp [ScanPost])
+    | refill rd1 depth1 =>
+      simp only [ScanPost] at hsc
+      obtain ⟨h1, hs1, hfit1, hnone, hsrc1, hcap1⟩ := hsc
+      simp only
+      have hrem1 := remaining_eq h1
+      have hwl1 : rd1.buf.window.length = rd1.buf.windowLen := Buf.window_length h1.buf.se h1.buf.em
+      have hnf1 : Src.NoFaults rd1.src.sched := by rw [hsrc1]; exact hnf
+      obtain ⟨f1, f2⟩ := fillBuf_nofaults rd1.buf rd1.src hnf1
+      -- an exhausted source contradicts the pending lexeme
+      have hexh : rd1.src.rest = [] → False := by
+        intro hs0
+        rw [hrem1, hs0, List.append_nil] at hs1
+        exact skips_lexeme hs1 hnone
+      rcases Buf.fillBuf_cases rd1.buf rd1.src data h1.buf h1.wf with
+        ⟨hc0, hfb⟩ | ⟨hcpos, hfull, hfb⟩ | ⟨hcpos, hlt, n, b', src', hfb, hinv', hpos', hcap', hwin', hwl', hrest', hn, hdel', hwf', hz⟩ |
+        ⟨hcpos, hlt, b', src', hfb, hinv', hpos', hcap', hwin', hwl', hrest', hdel', hwf'⟩
+      · exact absurd (h1.slice hc0) (fun hh => hexh hh)
+      · exfalso
+        rcases hfit1 with hc | hf
+        · omega
+        · have := skipFits_head hf rd1.buf.windowLen (by rw [hrem1]; simp; omega)
+            (by rw [hrem1, ← hwl1, List.take_left']; exact hnone; rfl)
+          omega
+      · rw [hfb] at f1 f2 ⊢
+        simp only at f2 ⊢
+        by_cases hn0 : n = 0
+        · exact absurd (hz hn0) (fun hh => hexh hh)
+        · rw [if_neg hn0]
+          have hrd' : RInv { src := src', buf := b' } data := by
+            refine ⟨hinv', hwf', fun hc => ?_, fun _ => ?_, ?_⟩
+            · simp only at hc; omega
+            · have := h1.deliv hcpos
+              simp only [Reader.position] at *
+              rw [hdel', this, hpos', hwl']; omega
+            · have := h1.ple
+              simp only [Reader.position] at *
+              rw [hpos']; exact this
+          have hposeq : ({ src := src', buf := b' } : Reader).position = rd1.position := hpos'
+          have hremeq : ({ src := src', buf := b' } : Reader).remaining data = rd1.remaining data := by
+            simp only [Reader.remaining, hposeq]
+          exact ih { src := src', buf := b' } depth1 hrd' (by rw [hremeq]; exact hs1)
+            (by simp only; rw [hcap', hremeq]; exact hfit1) f2
+            (by
+              have e1 : rd1.src.rest.length = rd.src.rest.length := by rw [hsrc1]
+              simp only
+              rw [hrest', List.length_drop]
+              omega)
+      · rw [hfb] at f1
+        exact absurd rfl f1
+
+/-- **C09 (binary reader) = lexer.**  Whenever `Lexer::skip_container`, run on the bytes the
+reader still has to see, succeeds and leaves `l'`, the streamed `TokenReader::skip_container`
+— under every fault-free schedule and every buffer in which the lexemes on the way fit —
+succeeds too, and stops at the same byte: same unread input, `position()` equal to the
+lexer's `position()`. -/
+theorem C09_bin_reader_skip (data : Bytes) (rd : Reader) (l' : Lexer) (h : RInv rd data)
+    (hfit : rd.buf.cap = 0 ∨ SkipFits rd.buf.cap (rd.remaining data) 1)
+    (hnf : Src.NoFaults rd.src.sched)
+    (hlex : (Lexer.mk (rd.remaining data) data.length).skipContainer = some (.ok (), l')) :
+    rd.skipContainer.1 = .ok () ∧ rd.skipContainer.2.remaining data = l'.data ∧
+    rd.skipContainer.2.position = l'.position ∧ RInv rd.skipContainer.2 data := by
+  unfold Lexer.skipContainer at hlex
+  obtain ⟨hsk, hL⟩ := lexer_skips _ _ _ _ _ hlex
+  obtain ⟨a, b, c⟩ := reader_skip data l'.data rd.fuelFor rd 1 h hsk hfit hnf (by simp [Reader.fuelFor])
+  refine ⟨a, b, ?_, c⟩
+  have hple := c.ple
+  have hlen := congrArg List.length b
+  simp only [Reader.remaining, List.length_drop] at hlen
+  simp only [Lexer.position, hL]
+  show (Reader.skipLoop rd.fuelFor rd 1).2.position = _
+  omega
+
+/-- the same from the token-level reference: if counting opens and closes over `read_token`'s
+tokens finds the matching close and leaves `r`, the streamed skip lands exactly there -/
+theorem C09_bin_reader_skip_balanced (data r : Bytes) (rd : Reader) (h : RInv rd data)
+    (hfit : rd.buf.cap = 0 ∨ SkipFits rd.buf.cap (rd.remaining data) 1)
+    (hnf : Src.NoFaults rd.src.sched)
+    (hb : balancedSkip ((rd.remaining data).length / 2 + 1) (rd.remaining data) 1 = some (.ok r)) :
+    rd.skipContainer.1 = .ok () ∧ rd.skipContainer.2.remaining data = r ∧ RInv rd.skipContainer.2 data := by
+  have hl := (C09_bin_lexer_skip (Lexer.mk (rd.remaining data) data.length) r hb).2
+  obtain ⟨a, b, _, c⟩ := C09_bin_reader_skip data rd _ h hfit hnf hl
+  exact ⟨a, b, c⟩
+
+theorem lexeme_none_bound (w : Bytes) (h : lexeme w = none) : w.length < 65539 := by
+  rw [lexeme_eq] at h
+  cases hid : readId w with
+  | error e =>
+    have : e = .eof := by
+      cases e with
+      | eof => rfl
+      | invalidRgb => simp [readId] at hid; split at hid <;> simp at hid
+    subst this
+    have := readId_eofBound w hid
+    omega
+  | ok v =>
+    obtain ⟨id, d1⟩ := v
+    rw [hid] at h
+    simp only [Option.map_eq_none_iff] at h
+    have hw := readId_maxLen w id d1 hid
+    unfold payloadRest at h
+    by_cases h1 : id = CLOSE
+    · rw [if_pos h1] at h; simp at h
+    rw [if_neg h1] at h
+    by_cases h2 : id = OPEN
+    · rw [if_pos h2] at h; simp at h
+    rw [if_neg h2] at h
+    by_cases h3 : id = BOOL
+    · rw [if_pos h3] at h
+      by_cases hl : 1 ≤ d1.length
+      · rw [if_pos hl] at h; simp at h
+      · omega
+    rw [if_neg h3] at h
+    by_cases h4 : id = F32 ∨ id = U32 ∨ id = I32
+    · rw [if_pos h4] at h
+      by_cases hl : 4 ≤ d1.length
+      · rw [if_pos hl] at h; simp at h
+      · omega
+    rw [if_neg h4] at h
+    by_cases h5 : id = F64 ∨ id = I64 ∨ id = U64
+    · rw [if_pos h5] at h
+      by_cases hl : 8 ≤ d1.length
+      · rw [if_pos hl] at h; simp at h
+      · omega
+    rw [if_neg h5] at h
+    by_cases h6 : id = QUOTED ∨ id = UNQUOTED
+    · rw [if_pos h6] at h
+      cases hs : readString d1 with
+      | ok v => obtain ⟨x, dd⟩ := v; rw [hs] at h; simp at h
+      | error e =>
+        have := readString_err hs
+        subst this
+        have := readString_eofBound d1 hs
+        omega
+    rw [if_neg h6] at h
+    simp at h
+
+/-- with the documented minimal buffer every lexeme fits, so `C09_bin_reader_skip` applies -/
+theorem skipFits_of_large (cap : Nat) (hcap : 65539 ≤ cap) (d : Bytes) (depth : Nat) : SkipFits cap d depth := by
+  suffices h : ∀ n (d : Bytes) (depth : Nat), d.length ≤ n → SkipFits cap d depth from
+    h d.length d depth (Nat.le_refl _)
+  intro n
+  induction n with
+  | zero =>
+    intro d depth hd
+    refine SkipFits.mk d depth ?_ ?_
+    · intro k hk he
+      have := lexeme_none_bound _ he
+      simp at this; omega
+    · intro id r hlx _
+      obtain ⟨pre, hpre, hlen⟩ := lexeme_consumes hlx
+      have : d.length = pre.length + r.length := by rw [hpre]; simp
+      omega
+  | succ n ih =>
+    intro d depth hd
+    refine SkipFits.mk d depth ?_ ?_
+    · intro k hk he
+      have := lexeme_none_bound _ he
+      simp at this; omega
+    · intro id r hlx _
+      obtain ⟨pre, hpre, hlen⟩ := lexeme_consumes hlx
+      apply ih
+      have : d.length = pre.length + r.length := by rw [hpre]; simp
+      omega
+
+end Jomini.BinReader
